@@ -131,7 +131,9 @@ Inductive shape (s : sys) (o : op) (s' : sys) (mo : sobs) : Prop :=
     message_of o = Some cs -> subject o = Some c -> conn_of conns c = Some cn -> read_all cs = Some m ->
     o_calls mo = consume sym_v id_of_n K (s_ps s) m cn (connected conns (s_net s) (c_peer cn)) ->
     s_ps s' = appl (s_ps s) (o_calls mo) ->
-    o_events mo = (if push then [(3, c_peer cn)] else []) ++ [(1, c_peer cn)] -> shape s o s' mo
+    o_events mo = (if push then [(3, c_peer cn)] else []) ++ [(1, c_peer cn)]
+                  ++ (if record_used sym_v id_of_n (c_peer cn) m then [(4, c_peer cn); (5, c_peer cn)] else []) ->
+    shape s o s' mo
 | ShLastDisc c order cn :
     o = ODisconnected c order -> conn_of conns c = Some cn ->
     connected conns (s_net s) (c_peer cn) = false ->
@@ -148,7 +150,8 @@ Lemma handle_response_spec s c cs push s' calls evs :
   exists cn m, conn_of conns c = Some cn /\ read_all cs = Some m /\
     calls = consume sym_v id_of_n K (s_ps s) m cn (connected conns (s_net s) (c_peer cn)) /\
     s' = with_ps s (appl (s_ps s) calls) /\
-    evs = (if push then [(3, c_peer cn)] else []) ++ [(1, c_peer cn)].
+    evs = (if push then [(3, c_peer cn)] else []) ++ [(1, c_peer cn)]
+          ++ (if record_used sym_v id_of_n (c_peer cn) m then [(4, c_peer cn); (5, c_peer cn)] else []).
 Proof.
   unfold handle_response. destruct (conn_of conns c) as [cn|]; [|discriminate].
   destruct (read_all cs) as [m|]; [|discriminate]. intros H. inversion H. exists cn, m. tauto.
